@@ -197,6 +197,30 @@ theorem reset_abandons_long_data_code (c : Connection S) (data : Mimic.Py.Bytes)
       Mimic.Py.dictGet c'.prepared_stmts f.stmt_id = some { stmt with param_buffers := none, cursor := none } :=
   handle_stmt_reset_clears_buffers c data f stmt hp hget
 
+/-- **The prepare response announces exactly the placeholders that will be bound**: `handle_stmt_prepare`, translated,
+    registers the statement with `num_params` = the number of placeholders of the decoded text (`count_params`, the
+    meaning of `len(REGEX_PARAM.findall(sql))`), reports that number in the prepare-OK packet, and sends exactly that
+    many parameter definitions (then the closing EOF unless deprecated); nothing follows the prepare-OK of a statement
+    without placeholders. -/
+theorem code_prepare_announces_placeholders (E : Mimic.Py.Env S) (cp : S → Nat) (pc : Nat → Mimic.Py.Bytes) (c : Connection S)
+    (data : Mimic.Py.Bytes) (sql : S) (hd : E.decode c.client_charset data = some sql) :
+    let st : PreparedStatement S := ⟨c.prepared_stmt_seq.value, sql, cp sql, none, none⟩
+    ∃ c' w f, handle_stmt_prepare E cp pc c data = .ok c' ∧
+      Mimic.Py.dictGet c'.prepared_stmts c.prepared_stmt_seq.value = some st ∧
+      c'.out = c.out ++ (Ev.write (make_com_stmt_prepare_ok st) false ::
+                 (List.replicate (cp sql) (Ev.write (pc c.server_charset) false) ++
+                  (if cp sql = 0 ∨ deprecate_eof c = true then [] else [Ev.write (eof c w f) false]))) ++ [Ev.drain] := by
+  intro st
+  have h := handle_stmt_prepare_spec E cp pc c data
+  simp only [hd] at h
+  obtain ⟨c', w, f, hrun, hreg, _, _, _, hout⟩ := h
+  refine ⟨c', w, f, hrun, by rw [hreg]; simp [dictGet_dictSet, st], ?_⟩
+  rw [hout]
+  unfold prepareResponse
+  by_cases h0 : cp sql = 0
+  · simp [h0, st]
+  · cases hdep : deprecate_eof c <;> simp [h0, hdep, st]
+
 end handlers
 
 end MimicProps.C06
